@@ -2,7 +2,7 @@
 #
 _c04_dep = ['harness/c04_common.hpp']
 _c04_q = dict(N=4, X0=3)
-_c04_t = dict(N=7, X0=3)
+_c04_t = dict(N=10, X0=3)
 
 def _c04_runs(b, bg1, b222, sh, extra={}):
     """(tu, group, bounds, shards): sh scales the shard counts, extra overrides them per group"""
@@ -17,7 +17,7 @@ def _c04_runs(b, bg1, b222, sh, extra={}):
         R('c04_step', 'pairs_x', b, 1), R('c04_step', 'dst_x', b, 1), R('c04_step', 'equal_x', b, 1),
         R('c04_transposed', 'pairs_t', b, 1), R('c04_transposed', 'dst_t', b, 1), R('c04_transposed', 'equal_t', b, 1),
         R('c04_float', 'pairs_f', b, 2), R('c04_float', 'dst_f', b, 1), R('c04_float', 'equal_f', b, 2),
-        R('c04_float', 'sizes', b, 3), R('c04_float', 'convert', b, 2),
+        R('c04_sizes', 'sizes', b, 3), R('c04_sizes', 'convert', b, 2),
     ]
 
 CHECKS['C04'] = dict(
@@ -45,10 +45,11 @@ CHECKS['C04'] = dict(
          dict(name='c04_step', src='harness/c04_step.cpp', deps=_c04_dep),
          dict(name='c04_transposed', src='harness/c04_transposed.cpp', deps=_c04_dep),
          dict(name='c04_float', src='harness/c04_float.cpp', deps=_c04_dep),
+         dict(name='c04_sizes', src='harness/c04_sizes.cpp', deps=_c04_dep),
          dict(name='c04_bits', src='harness/c04_bits.cpp', deps=_c04_dep)],
     runs=dict(
         quick=_c04_runs(_c04_q, _c04_q, _c04_q, 1),
-        thorough=_c04_runs(_c04_t, dict(N=10, X0=8), dict(N=7, X0=4), 2, dict(equal_gray1=18, pairs_gray1=8))),
+        thorough=_c04_runs(_c04_t, dict(N=16, X0=8), dict(N=8, X0=4), 2, dict(equal_gray1=48, pairs_gray1=24, equal_bits=12, sizes=8))),
     witnesses_required=dict(all=[
         # copy_with_2d_iterators: four traversability branches x the std::copy overload reached at the leaf
         'copy:1d1d:memmove', 'copy:1d2d:memmove', 'copy:2d1d:memmove', 'copy:2d2d:memmove',
